@@ -457,15 +457,18 @@ class SrcGen:
                     cons.append("LC")
                 elif c < 0.8:
                     cons.append("~int | ~string")
-                elif c < 0.87:
+                elif c < 0.84:
                     cons.append("interface{ int | int64 }")
+                elif c < 0.87:
+                    # a defined non-interface type as the whole constraint or as one element of it
+                    cons.append(r.choice(["LN", "interface{ LN }", "interface{ LN; L0() }", "LT", "LS"]))
                 elif c < 0.97:
                     # a constraint declared in another package, preferably one of the same-named
                     # packages this source package concentrates on
                     cands = [l for l in getattr(self, "focus", []) if not l[2] and l[0] != "dotimp"] or \
                             [l for l in LIB if not l[2] and l[0] != "dotimp"]
                     rel, nm, _ = r.choice(cands)
-                    cons.append(self.qual(MOD + "/" + rel, nm) + r.choice([".C", ".MC", ".MC"]))
+                    cons.append(self.qual(MOD + "/" + rel, nm) + r.choice([".C", ".MC", ".MC", ".N"]))
                 elif self.adv:
                     cons.append(r.choice(["comparable", "interface{ LN | int }", "interface{ ~[]%s }" % tparams[0]]))
                 else:
@@ -589,10 +592,18 @@ def conflict_case(rnd, name, adversarial=False):
             groups.setdefault(nm, []).append((pth, nm))
     rich = [k for k, v in groups.items() if len(v) >= 2]
     chosen = []
-    for g in r.sample(rich, r.choice([1, 1, 2])):
-        chosen += r.sample(groups[g], min(len(groups[g]), r.choice([2, 2, 3])))
-    others = [x for v in groups.values() for x in v if x not in chosen]
-    chosen += r.sample(others, r.choice([0, 1, 1, 2]))
+    if r.random() < 0.5:
+        # one name, as many of its packages as there are, and a friend or two whose *names* can be
+        # given to them as source aliases
+        g = r.choice(rich)
+        chosen += r.sample(groups[g], min(len(groups[g]), r.choice([2, 3, 4])))
+        others = [x for v in groups.values() for x in v if x not in chosen]
+        chosen += r.sample(others, r.choice([1, 1, 2]))
+    else:
+        for g in r.sample(rich, r.choice([1, 1, 2])):
+            chosen += r.sample(groups[g], min(len(groups[g]), r.choice([2, 2, 3])))
+        others = [x for v in groups.values() for x in v if x not in chosen]
+        chosen += r.sample(others, r.choice([0, 1, 1, 2]))
     r.shuffle(chosen)
     invent = [u for pth, _ in chosen for u in unique_names(pth.replace(MOD + "/", "m/", 1) if False else pth)[:3]]
     names_pool = sorted(set(invent + [nm for _, nm in chosen])) + ["s", "n", "v"]
@@ -667,8 +678,14 @@ def conflict_case(rnd, name, adversarial=False):
     taken = {"hub"}
     aliased = []
     for i, (pth, nm) in enumerate(chosen):
-        if r.random() < 0.3:
-            al = r.choice(names_pool) if r.random() < 0.7 else r.choice(TRICKY_ALIASES)
+        if r.random() < 0.35:
+            c = r.random()
+            if c < 0.5:
+                al = r.choice([n2 for _, n2 in chosen])      # another chosen package's name (or its own)
+            elif c < 0.8:
+                al = r.choice(names_pool)
+            else:
+                al = r.choice(TRICKY_ALIASES)
             if al in taken or al in ("s", "n", "v") and r.random() < 0.5:
                 continue
             taken.add(al)
